@@ -259,7 +259,8 @@ template<class T, int D> struct RootD : Root<T> {
 				multi::mpi::message msg(v.elements());
 				uo.count = msg.count();
 				if(ledger::state(msg.datatype()) == ledger::LIVE) { int sz = 0; if(PMPI_Type_size(msg.datatype(), &sz) == MPI_SUCCESS) { uo.type_bytes = static_cast<long>(sz)*uo.count; } }
-				uo.rc = MPI_Unpack(in.data(), static_cast<int>(in.size()*sizeof(T)), &uo.position, msg.buffer(), msg.count(), msg.datatype(), MPI_COMM_SELF);
+				std::vector<T> inb(in); inb.push_back(T{});   // never a null input buffer, also for zero elements (MPI_Unpack rejects inbuf == NULL whatever the size)
+				uo.rc = MPI_Unpack(inb.data(), static_cast<int>(in.size()*sizeof(T)), &uo.position, msg.buffer(), msg.count(), msg.datatype(), MPI_COMM_SELF);
 			}
 		});
 	}
@@ -444,7 +445,7 @@ static bool cfg_nontrivial(Cfg const& c) {
 static void account(Cfg const& c, char kind, std::vector<Symptom> const& sy) {
 	if(kind == 'N') { ++g_na; return; }
 	++g_eval; ++g_form_n[c.form]; if(cfg_nontrivial(c)) { ++g_nontriv; }
-	if(kind == 'C') { ++g_correct; return; }
+	if(kind == 'C') { ++g_correct; mc::R.outcome(std::string(form_tag[c.form]) + "|" + (*W.shapes[static_cast<std::size_t>(c.sr)].st)[static_cast<std::size_t>(c.ss)].lclass + "|" + (*W.shapes[static_cast<std::size_t>(c.dr)].st)[static_cast<std::size_t>(c.ds)].lclass + "|correct"); return; }
 	if(kind == 'R') { ++g_rejected; mc::R.outcome("rejected:" + (sy.empty() ? std::string() : sy[0].tag)); return; }
 	++g_violating;
 	for(auto const& s : sy) { mc::R.violation(key_of_cfg(c, s.tag), json_of_cfg(c, "violation", s)); mc::R.outcome(s.tag); }
